@@ -189,27 +189,33 @@ def gen_master_secret_tls_10_11(pm_secret, client_random, server_random):
     return master_secret
 
 
-def gen_master_secret_tls_12(pm_secret, client_random, server_random):
+def gen_master_secret_tls_12(pm_secret, client_random, server_random, mac_function=hashes.SHA256):
+    # RFC 5246 8.1: the PRF hash is the one of the cipher suite (P_SHA384 for the SHA384 suites)
+    mac = hashes.SHA256
+
+    if mac_function == hashes.SHA384:
+        mac = hashes.SHA384
+
     seed = b'master secret' + client_random + server_random
 
     a0 = seed
 
-    h = hmac.HMAC(pm_secret, hashes.SHA256())
+    h = hmac.HMAC(pm_secret, mac())
     h.update(a0)
     a1 = h.finalize()
-    h = hmac.HMAC(pm_secret, hashes.SHA256())
+    h = hmac.HMAC(pm_secret, mac())
     h.update(a1)
     a2 = h.finalize()
 
-    h = hmac.HMAC(pm_secret, hashes.SHA256())
+    h = hmac.HMAC(pm_secret, mac())
     h.update(a1 + seed)
     p1 = h.finalize()
 
-    h = hmac.HMAC(pm_secret, hashes.SHA256())
+    h = hmac.HMAC(pm_secret, mac())
     h.update(a2 + seed)
     p2 = h.finalize()
 
-    master_secret = p1 + p2[:16]
+    master_secret = (p1 + p2)[:48]
 
     logging.info(f"Master Secret: {master_secret}")
 
